@@ -1124,7 +1124,18 @@ func c08ErrorClassification(c *Ctx, p *Prog) {
 		// its possible values (a pass-through wrapper with `if h == nil { return nil }` would)
 		nilErr := ""
 		for _, r := range Returns(f) {
-			for _, x := range Roots(ReturnValue(r, 1)) {
+			ev := ReturnValue(r, 1)
+			// `if err != nil { return nil, err }`: on that branch the value is not nil whatever its sources
+			guarded := false
+			for _, g := range GuardingIfs(r) {
+				if v, nonNil, ok := ErrNilTest(g.If); ok && g.Succ == nonNil && ev != nil && (v == ev || SameValue(v, ev)) {
+					guarded = true
+				}
+			}
+			if guarded {
+				continue
+			}
+			for _, x := range Roots(ev) {
 				if IsNilConst(x) {
 					nilErr = p.Pos(r.Pos())
 				}
